@@ -731,6 +731,11 @@ def module_stream(seed, count, pid):
     base = random.Random("%s/v/%d" % (pid, seed))
     for j, (name, mod) in enumerate(corpus_items(pid, "V")):
         yield "c%d" % j, fix_json_module(mod), random.Random("corpus/" + name)
+    if pid in ("C01", "C10", "C20"):
+        for j, mod in enumerate(V.directed_passing_modules()):
+            if pid == "C20" and len(mod["defs"]) == 1:
+                continue
+            yield "p%d" % j, mod, random.Random("pass/%d/%d" % (seed, j))
     if pid in ("C10", "C20"):
         directed = list(V.directed_modules())
         pick = directed if count > 2000 else random.Random("dir/%d" % seed).sample(directed, 150)
@@ -1058,7 +1063,17 @@ ASSUME_H = [
     "setup nodes are not run concurrently for the first time (excluded by the property statements)",
 ]
 reg("C11", ["Props.C11_setup_at_most_once", "Props.C11_first_value_kept", "VM.not_entered_of_res"], run_H, ASSUME_H)
-reg("C15", ["Props.C15_no_state_but_setup", "VM.applyOp_res_nonsetup", "Props.C01_core"], run_H, ASSUME_H)
+def run_H_and_composeprobe(pid, tier, seed):
+    cov, fs, _ = run_H(pid, tier, seed)
+    covc, fsc, _ = run_C(pid, tier, seed)
+    keep = [f for f in fsc if f.signature == "compose-changed-the-original"]
+    cov["compose_probes_of_the_original"] = covc.get("original_probes", 0)
+    cov["evaluations"] += covc.get("original_probes", 0)
+    cov["rule"] += "; plus: the original DAG probed with the same arguments before and after compose() with random inputs/outputs (slice C)"
+    return cov, fs + keep, None
+
+
+reg("C15", ["Props.C15_no_state_but_setup", "VM.applyOp_res_nonsetup", "Props.C01_core"], run_H_and_composeprobe, ASSUME_H)
 reg("C18", ["Props.C18_restart_same", "VM.denote_seeded"], run_H, ASSUME_H)
 
 
@@ -1113,7 +1128,7 @@ def run_C(pid, tier, seed):
             if ell:
                 ins = [n, n + 1]
                 stats["ellipsis"] += 1
-            vals = [rng.choice([1, 0, None, (3, 4), "v", True]) for _ in ins]
+            vals = [rng.choice([(3, 4), ("a", "b"), (1, (2, 3)), (0, 5), 1, 0, None, "xy", True]) for _ in ins]
             # aliases
             ambiguous = False
 
@@ -1138,6 +1153,9 @@ def run_C(pid, tier, seed):
             want = ("VALUEERROR", "ambiguous-alias") if ambiguous else C.oracle(sc, outs, ins, vals)
             case = dict(ins=ins, outs=outs, vals=vals, ellipsis=ell, single=single, ambiguous=ambiguous)
             distinct.add(json.dumps([sc, ins, outs], sort_keys=True, default=repr))
+            if want[0] == "RAISES":
+                stats["plain_raises"] = stats.get("plain_raises", 0) + 1
+                continue    # the original pipeline itself would raise on these values: nothing is claimed
             if want[0] == "VALUEERROR":
                 stats["valueerrors"] += 1
                 stats["ambiguous"] += int(ambiguous)
@@ -1268,6 +1286,18 @@ def run_T(pid, tier, seed):
             if res != ("second", ("first", arg), arg):
                 failures.append(Failure("counterexample", "concurrent-call-got-foreign-result", dict(k=k, batch=b),
                                         dict(arg=arg, result=res), slice_="T"))
+                break
+    # builds that really overlap: the others wait for the lock while the first is paused in its describing function
+    stats["overlapping_build_batches"] = 0
+    for b in range(12 if tier == "quick" else 120):
+        k = 2 + b % 3
+        stats["overlapping_build_batches"] += 1
+        plans, res = T.overlapping_builds(k, seed * 1000 + b)
+        for t in range(k):
+            want = ("BUILT", plans[t])
+            if res.get(t) != want:
+                failures.append(Failure("counterexample", "overlapping-builds-differ-from-sequential",
+                                        dict(k=k, plans=plans), dict(thread=t, got=res.get(t), want=want), slice_="T"))
                 break
     out = common.run_driver("Threads", "".join(blocks))
     model = {}
